@@ -9,6 +9,7 @@ import (
 	"fmt"
 	"math/big"
 	"os"
+	"sort"
 	"strings"
 	"sync"
 	"time"
@@ -308,6 +309,19 @@ func oracles(sc Scenario, ex Exec) []failure {
 			}
 		}
 	}
+	// C07: a success under a key is the outcome of THIS request: the entry stored under the key has the request's kind
+	// and target (revert: the same reverted transaction; metadata: same target and content)
+	for i, r := range sc.Reqs {
+		if r.IK == "" || !ex.Responses[i].OK {
+			continue
+		}
+		for _, l := range ex.Disk {
+			if l.IdempotencyKey == r.IK && !isOutcome(r, l) {
+				add("C07", "key-reused-for-a-different-request-accepted:"+r.Kind, fmt.Sprintf("request %d (%s) answered success under key %q, which stores %s", i, contentKey(r), r.IK, entryKey(l)))
+				break
+			}
+		}
+	}
 	// C06: acknowledged => persisted at response time; one entry per successful non-replayed write; no orphan
 	produced := 0
 	for i, r := range sc.Reqs {
@@ -502,6 +516,43 @@ func oracles(sc Scenario, ex Exec) []failure {
 			add("C16", "persisted-change-never-published:"+r.Kind, fmt.Sprintf("request %d succeeded and published nothing", i))
 		}
 	}
+	// C16: every persisted change is published at least once -- stated on the entries: when no request died with the
+	// process (a dead request publishes nothing), every entry the requests of this execution put on disk has an event of
+	// its kind (and, for a transaction / revert, of its transaction id)
+	dead := false
+	for _, r := range ex.Responses {
+		dead = dead || r.Err == "crashed"
+	}
+	if !dead && ex.Fault == "" {
+		metaEvents := map[string]int{}
+		for _, p := range ex.Published {
+			if p.Kind == "saved_metadata" || p.Kind == "deleted_metadata" {
+				metaEvents[p.Kind]++
+			}
+		}
+		metaEntries := map[string]int{}
+		for j, l := range ex.Disk[ex.SetupLen:] {
+			switch l.Data.(type) {
+			case ledger.SetMetadataLogPayload:
+				metaEntries["saved_metadata"]++
+			case ledger.DeleteMetadataLogPayload:
+				metaEntries["deleted_metadata"]++
+			default:
+				tx, found := txOf(l), false
+				for _, p := range ex.Published {
+					found = found || (p.Tx != nil && tx != nil && p.Tx.ID.Cmp(tx.ID) == 0)
+				}
+				if !found {
+					add("C16", "persisted-entry-never-published:"+l.Type.String(), fmt.Sprintf("log %d (%s) is on disk, nobody died, and no event carries its transaction", ex.SetupLen+j, l.Type))
+				}
+			}
+		}
+		for k, n := range metaEntries {
+			if metaEvents[k] < n {
+				add("C16", "persisted-entry-never-published:"+k, fmt.Sprintf("%d %s entries written, %d such events", n, k, metaEvents[k]))
+			}
+		}
+	}
 	if ex.Stuck {
 		add("C06", "deadlock", "requests remain and nothing is enabled")
 	}
@@ -558,6 +609,21 @@ func entryKey(l *ledger.ChainedLog) string {
 		return fmt.Sprintf("delmeta %s %v %s ik=%q", p.TargetType, p.TargetID, p.Key, l.IdempotencyKey)
 	}
 	return "?"
+}
+
+// isOutcome: the stored entry is the outcome of this request, as the engine compares them before replaying a key
+func isOutcome(r engx.Req, l *ledger.ChainedLog) bool {
+	switch p := l.Data.(type) {
+	case ledger.NewTransactionLogPayload:
+		return r.Kind == "create"
+	case ledger.RevertedTransactionLogPayload:
+		return r.Kind == "revert" && p.RevertedTransactionID.Cmp(big.NewInt(r.RevertID)) == 0
+	case ledger.SetMetadataLogPayload:
+		return r.Kind == "savemeta" && metaName("savemeta", p.TargetType, fmt.Sprint(p.TargetID), p.Metadata, "") == metaName("savemeta", r.Target, r.TargetID, r.Meta, "")
+	case ledger.DeleteMetadataLogPayload:
+		return r.Kind == "delmeta" && metaName("delmeta", p.TargetType, fmt.Sprint(p.TargetID), nil, p.Key) == metaName("delmeta", r.Target, r.TargetID, nil, r.Key)
+	}
+	return false
 }
 
 func matchesKind(r engx.Req, l *ledger.ChainedLog) bool {
@@ -700,6 +766,27 @@ func scenarios() []Scenario {
 			Reqs: []engx.Req{ref(xfer(20, "alice", "carol"), "r6")}, Budget: 10},
 		{Name: "restart-after-revert", Setup: []engx.Req{fund("alice", 300), xfer(10, "alice", "bob"), xfer(20, "alice", "bob"), engx.Req{Kind: "revert", RevertID: 1}},
 			Reqs: []engx.Req{xfer(1, "alice", "carol"), xfer(2, "alice", "carol")}, Budget: 60},
+		// a key that stored a metadata write, reused for a metadata write of the same kind on another target / with other
+		// content / another key to delete: refused; the exact request again: replayed
+		{Name: "ik-reuse-metadata-other-target", Setup: []engx.Req{fund("alice", 100), ik(metaA, "k31"),
+			ik(engx.Req{Kind: "delmeta", Target: "ACCOUNT", TargetID: "alice", Key: "a"}, "k36"),
+			ik(engx.Req{Kind: "savemeta", Target: "TRANSACTION", TargetID: "0", Meta: map[string]string{"a": "1"}}, "k37")}, Budget: 80,
+			Reqs: []engx.Req{
+				ik(engx.Req{Kind: "savemeta", Target: "ACCOUNT", TargetID: "bob", Meta: map[string]string{"a": "1"}}, "k31"),
+				ik(engx.Req{Kind: "savemeta", Target: "ACCOUNT", TargetID: "alice", Meta: map[string]string{"a": "2"}}, "k31"),
+				ik(metaA, "k31"),
+				ik(engx.Req{Kind: "delmeta", Target: "ACCOUNT", TargetID: "alice", Key: "b"}, "k36"),
+				ik(engx.Req{Kind: "savemeta", Target: "TRANSACTION", TargetID: "1", Meta: map[string]string{"a": "1"}}, "k37")},
+			Directed: [][]string{{"start(0)", "resume(0)*", "start(1)", "resume(1)*", "start(2)", "resume(2)*", "start(3)", "resume(3)*", "start(4)", "resume(4)*"}}},
+		// the exact request again under its key after a restart (the setup runs in its own commander generation), and
+		// with a crash in between: every kind replays its stored outcome, nothing is written twice
+		{Name: "ik-reuse-same-kind-after-restart", Setup: []engx.Req{fund("alice", 100), ik(xfer(10, "alice", "bob"), "k32"),
+			ik(engx.Req{Kind: "revert", RevertID: 1}, "k33"), ik(metaA, "k34"), ik(engx.Req{Kind: "delmeta", Target: "ACCOUNT", TargetID: "alice", Key: "a"}, "k35")},
+			Crash: true, Budget: 80,
+			Reqs: []engx.Req{ik(xfer(10, "alice", "bob"), "k32"), ik(engx.Req{Kind: "revert", RevertID: 1}, "k33"), ik(metaA, "k34"),
+				ik(engx.Req{Kind: "delmeta", Target: "ACCOUNT", TargetID: "alice", Key: "a"}, "k35")},
+			Directed: [][]string{{"start(0)", "resume(0)*", "start(1)", "resume(1)*", "start(2)", "resume(2)*", "start(3)", "resume(3)*"},
+				{"start(0)", "start(1)", "crash(-1)", "start(2)", "resume(2)*", "start(3)", "resume(3)*"}}},
 		{Name: "three-same-ik", Setup: []engx.Req{fund("alice", 300)}, Budget: 500, Reqs: []engx.Req{
 			ik(xfer(10, "alice", "bob"), "k7"), ik(xfer(10, "alice", "bob"), "k7"), ik(xfer(10, "alice", "bob"), "k7")}},
 		{Name: "three-same-reference", Setup: []engx.Req{fund("alice", 300)}, Budget: 500, Reqs: []engx.Req{
@@ -869,10 +956,32 @@ func scenarios() []Scenario {
 
 // ---- Coq rendering of one execution -----------------------------------------------------------------------
 
-type names struct{ acc, ik, ref map[string]int }
+type names struct{ acc, ik, ref, meta map[string]int }
 
 func newNames() *names {
-	return &names{acc: map[string]int{"world": 0}, ik: map[string]int{"": 0}, ref: map[string]int{"": 0}}
+	return &names{acc: map[string]int{"world": 0}, ik: map[string]int{"": 0}, ref: map[string]int{"": 0}, meta: map[string]int{"": 0}}
+}
+
+// metaName: what a metadata write writes where (the model's rq_meta / e_meta), as the code compares a stored log
+// with a request: target type, target id, and the metadata map / the key
+func metaName(kind, target, id string, md map[string]string, key string) string {
+	switch kind {
+	case "savemeta":
+		ks := make([]string, 0, len(md))
+		for k := range md {
+			ks = append(ks, k)
+		}
+		sort.Strings(ks)
+		var b strings.Builder
+		fmt.Fprintf(&b, "S|%s|%s|", target, id)
+		for _, k := range ks {
+			fmt.Fprintf(&b, "%q=%q;", k, md[k])
+		}
+		return b.String()
+	case "delmeta":
+		return fmt.Sprintf("D|%s|%s|%q", target, id, key)
+	}
+	return ""
 }
 func idx(m map[string]int, k string) int {
 	if v, ok := m[k]; ok {
@@ -902,8 +1011,9 @@ func (n *names) request(r engx.Req) string {
 	if r.Kind == "revert" {
 		unb = r.Force
 	}
-	return fmt.Sprintf("{| rq_kind := %s; rq_ik := %d%%N; rq_ref := %d%%N; rq_dry := %v; rq_postings := %s; rq_unb := %v; rq_revert := %d; rq_target_tx := %s |}",
-		kind, idx(n.ik, r.IK), idx(n.ref, r.Reference), r.DryRun, n.postings(ps), unb, r.RevertID, target)
+	return fmt.Sprintf("{| rq_kind := %s; rq_ik := %d%%N; rq_ref := %d%%N; rq_dry := %v; rq_postings := %s; rq_unb := %v; rq_revert := %d; rq_target_tx := %s; rq_meta := %d%%N |}",
+		kind, idx(n.ik, r.IK), idx(n.ref, r.Reference), r.DryRun, n.postings(ps), unb, r.RevertID, target,
+		idx(n.meta, metaName(r.Kind, r.Target, r.TargetID, r.Meta, r.Key)))
 }
 func (n *names) action(c engx.Choice, reqs []engx.Req, off int) string {
 	switch c.Kind {
@@ -945,8 +1055,10 @@ func coqCase(sc Scenario, ex Exec) string {
 		steps = append(steps, fmt.Sprintf("(%s, %d)", n.action(c, sc.Reqs, 100), ex.Counts[i]))
 	}
 	for _, l := range ex.Disk {
-		kind, txid, ps, ref, rev := "KSaveMeta", "None", "[]", 0, "None"
+		kind, txid, ps, ref, rev, mn := "KSaveMeta", "None", "[]", 0, "None", ""
 		switch p := l.Data.(type) {
+		case ledger.SetMetadataLogPayload:
+			mn = metaName("savemeta", p.TargetType, fmt.Sprint(p.TargetID), p.Metadata, "")
 		case ledger.NewTransactionLogPayload:
 			kind, txid, ref = "KCreate", "(Some "+p.Transaction.ID.String()+")", idx(n.ref, p.Transaction.Reference)
 			ps = n.ledgerPostings(p.Transaction.Postings)
@@ -956,9 +1068,10 @@ func coqCase(sc Scenario, ex Exec) string {
 			rev = "(Some " + p.RevertedTransactionID.String() + ")"
 		case ledger.DeleteMetadataLogPayload:
 			kind = "KDelMeta"
+			mn = metaName("delmeta", p.TargetType, fmt.Sprint(p.TargetID), nil, p.Key)
 		}
-		disk = append(disk, fmt.Sprintf("{| oe_id := %s; oe_kind := %s; oe_txid := %s; oe_postings := %s; oe_ref := %d%%N; oe_ik := %d%%N; oe_reverts := %s |}",
-			l.ID.String(), kind, txid, ps, ref, idx(n.ik, l.IdempotencyKey), rev))
+		disk = append(disk, fmt.Sprintf("{| oe_id := %s; oe_kind := %s; oe_txid := %s; oe_postings := %s; oe_ref := %d%%N; oe_ik := %d%%N; oe_reverts := %s; oe_meta := %d%%N |}",
+			l.ID.String(), kind, txid, ps, ref, idx(n.ik, l.IdempotencyKey), rev, idx(n.meta, mn)))
 	}
 	for i, r := range ex.Responses {
 		var x string
@@ -970,18 +1083,22 @@ func coqCase(sc Scenario, ex Exec) string {
 		default:
 			cls, ok := map[string]string{"ik-busy": "EIkBusy", "conflict": "EConflict", "not-found": "ENotFound", "already-reverted": "EAlreadyReverted",
 				"revert-occurring": "ERevertOccurring", "insufficient": "EInsufficient", "no-postings": "ENoPostings", "lock-cancelled": "ELockCancelled",
-				"store-read": "EStoreRead", "compilation-failed": "ECompilationFailed"}[r.Err]
+				"store-read": "EStoreRead", "compilation-failed": "ECompilationFailed", "key-reused": "EKeyReused"}[r.Err]
 			if !ok {
-				cls = "EKindMismatch (* " + strings.ReplaceAll(r.Err, "*)", "") + " *)"
+				x = "None (* " + strings.ReplaceAll(r.Err, "*)", "") + " *)" // an answer the model has no class for: never agrees
+			} else {
+				x = "RErr " + cls
 			}
-			x = "RErr " + cls
 		}
 		if r.Panic != "" {
-			resps = append(resps, fmt.Sprintf("(%d, RErr EKindMismatch)", 100+i)) // the only panic the model knows
+			resps = append(resps, fmt.Sprintf("(%d, None (* panic *))", 100+i)) // the model has no panicking request
 			continue
 		}
 		if r.Err == "" && !r.OK {
 			continue // never started
+		}
+		if !strings.HasPrefix(x, "None") {
+			x = "Some (" + x + ")"
 		}
 		resps = append(resps, fmt.Sprintf("(%d, %s)", 100+i, x))
 	}
